@@ -24,7 +24,25 @@ META = {
 }
 
 
+def p8_comment_lines(prog, ctx):
+    """P8: which lines are "the comment lines directly preceding the entry" is decided by the same test for every comment
+    character of the set (= C05.K1 / K3); and the text kept for comments and values is never mixed (= C05.K5)."""
+    from sa.report import Ctx as _Ctx
+    from rules import C05 as _C05
+    sub = _Ctx(ctx.prop, ctx.tier, prog)
+    try:
+        _C05.run(prog, sub)
+    except Inconclusive as e:
+        ctx.inconclusive("P8", "comment lines are recognised for every comment character", "", str(e))
+        return
+    for ob in sub.obs:
+        if ob.rule in ("K1", "K3", "K5"):
+            ob.rule = "P8"
+            ctx.obs.append(ob)
+
+
 def run(prog, ctx):
+    p8_comment_lines(prog, ctx)
     ma = ModAnalysis(prog, indirect_targets=indirect_table(prog))
     # ---- P1 --------------------------------------------------------------------------------------------------
     g = prog.fn("econf_getExtValue")
